@@ -61,6 +61,14 @@ pub trait Lend {
         self.lend(x)
     }
     fn lend_mut(&mut self, x: u8) -> &mut Tracked;
+    /// provided `&mut self` method that lends nothing (runs on the delegation helper)
+    fn poke_default(&mut self, x: u8) -> u32 {
+        x as u32 + 1
+    }
+    /// provided `&mut self` method whose default body calls `lend_mut` on the delegation helper
+    fn lend_mut_default(&mut self, x: u8) -> &mut Tracked {
+        self.lend_mut(x)
+    }
 }
 
 #[derive(Clone, Copy, Debug, PartialEq, Eq, Hash, Serialize, Deserialize)]
@@ -87,6 +95,10 @@ pub enum PhaseEnd {
     MakeMut(u8),
     /// `lend_mut` answered with make_mut
     LendMut(u8),
+    /// provided `&mut self` method that lends nothing: exclusive access alone releases nothing
+    PokeDefault(u8),
+    /// provided `&mut self` method whose default body calls `lend_mut` (make_mut on the helper)
+    LendMutDefault(u8),
 }
 
 #[derive(Clone, Debug, PartialEq, Eq, Hash, Serialize, Deserialize)]
@@ -300,6 +312,7 @@ struct Stats {
     via_helper: usize,
     same_type_reread: bool,
     make_mut: usize,
+    mut_default: usize,
     threads: usize,
 }
 
@@ -381,15 +394,28 @@ fn execute_on(
         run_phase(&insts[..], phase, &mut book, &mut salt, &mut stats)?;
         match phase.end {
             PhaseEnd::Nothing => {}
-            PhaseEnd::MakeMut(i) | PhaseEnd::LendMut(i) => {
+            PhaseEnd::PokeDefault(i) => {
+                let i = i as usize % n;
+                let r = insts[i].poke_default(3);
+                if r != 4 {
+                    return Err(format!("poke_default(3) returned {r}"));
+                }
+                // no make_mut happened: every value lent so far (directly or through the helper) stays alive
+                book.check_no_early_drop()?;
+                stats.mut_default += 1;
+            }
+            PhaseEnd::MakeMut(i) | PhaseEnd::LendMut(i) | PhaseEnd::LendMutDefault(i) => {
                 let i = i as usize % n;
                 salt += 1;
                 let id;
                 {
-                    let t: &mut Tracked = if matches!(phase.end, PhaseEnd::MakeMut(_)) {
-                        insts[i].make_mut(Tracked::new(&reg, salt))
-                    } else {
-                        insts[i].lend_mut(1)
+                    let t: &mut Tracked = match phase.end {
+                        PhaseEnd::MakeMut(_) => insts[i].make_mut(Tracked::new(&reg, salt)),
+                        PhaseEnd::LendMutDefault(_) => {
+                            stats.mut_default += 1;
+                            insts[i].lend_mut_default(1)
+                        }
+                        _ => insts[i].lend_mut(1),
                     };
                     id = t.id;
                     t.payload.push_str("-mutated");
@@ -494,6 +520,12 @@ fn execute_on(
     if stats.via_helper > 0 {
         classes.push("lent-via-delegation-helper".to_string());
     }
+    if stats.mut_default > 0 {
+        classes.push("provided-&mut-self-method-phase".to_string());
+    }
+    if stats.mut_default > 0 && stats.via_helper > 0 {
+        classes.push("helper-lent-values-then-&mut-delegation".to_string());
+    }
     if stats.returned > 0 {
         classes.push("returns()-configured-borrow".to_string());
     }
@@ -581,6 +613,8 @@ fn phase_strategy() -> impl Strategy<Value = Phase> {
             2 => Just(PhaseEnd::Nothing),
             2 => (0..4u8).prop_map(PhaseEnd::MakeMut),
             1 => (0..4u8).prop_map(PhaseEnd::LendMut),
+            2 => (0..4u8).prop_map(PhaseEnd::PokeDefault),
+            1 => (0..4u8).prop_map(PhaseEnd::LendMutDefault),
         ],
     )
         .prop_map(|(ops, end)| Phase { ops, end })
